@@ -331,10 +331,17 @@ def byteTextWrap(text, size, break_on_hyphens=False):
     if sys.version_info[0] >= 3:
         words = [w.encode() for w in words]
     lines = [b'']
+    if size < 1:
+        size = 1 # a line takes at least one character
     while words:
         word = words.pop(-1)
         if len(word) > size:
             (before, after) = splitBytes(word, size)
+            if not before:
+                # size is smaller than the next character: take that
+                # character anyway, or we would never get any further.
+                before = word.decode('utf8')[:1].encode('utf8')
+                after = word[len(before):]
             words.append(after)
             word = before
         if len(lines[-1]) + len(word) <= size:
